@@ -106,6 +106,8 @@ def coq_ev(c):
         return "EUdpSend %d %d %d %d" % (c[1], c[2], c[3], c[4])
     if n == "set_isn":
         return "ESetIsn %d %d" % (c[1], c[2])
+    if n == "set_cursor":
+        return "ESetCursor %d %d" % (c[1], c[2])
     if n == "udp_connect":
         return "EUdpConnect %d %d %d" % (c[1], c[2], c[3])
     if n == "udp_send_c":
@@ -160,7 +162,7 @@ def enc_obs(cmd, o):
         return [[0, o["n"]]] if r == "ok" else _err(r)
     if n in ("read", "peek"):
         return [[0], list(o["b"])] if r == "ok" else _err(r)
-    if n in ("shutdown", "close", "cancel", "udp_connect", "set_isn"):
+    if n in ("shutdown", "close", "cancel", "udp_connect", "set_isn", "set_cursor"):
         return [[0]] if r == "ok" else _err(r)
     if n == "addrs":
         a = o["a"]
@@ -776,6 +778,77 @@ def accept_waker_cases():
         fin = sc.slot()
         sc.add(["listen", fin, lh, 1 if loop else 3, 80], ["counts", lh])
         out.append({"cfg": cfg, "script": sc.s, "flavour": "accept_wakers",
+                    "plan": {"closed_all": True, "settled": True, "port": 80, "final_listen": fin}})
+    return out
+
+
+def port_wrap_cases():
+    """Deterministic family (always emitted, C13): the ephemeral-port scan wraps (verif hook set_cursor).  The top of
+    the range is occupied (listener / UDP socket on 65535, or a connection bound there) and the cursor stands at or
+    just below the end; also the first ports occupied with the cursor at the end.  connect / bind :0 must find a free
+    port after the wrap; the connection works; everything is reclaimed."""
+    out = []
+    for (v6, how, cur) in [(False, "listen", 65535), (False, "udp", 65534), (True, "listen", 65534), (False, "first", 65535)]:
+        cfg = full_cfg({"backlog": 4, "send_cap": 64, "recv_cap": 64, "v6": v6})
+        sc = Script()
+        hold = []
+        if how == "listen":
+            x = sc.slot(); hold.append(x)
+            sc.add(["listen", x, 0, 0, 65535])
+        elif how == "udp":
+            x = sc.slot(); hold.append(x)
+            sc.add(["udp_bind", x, 0, 0, 65535])
+            y = sc.slot(); hold.append(y)
+            sc.add(["listen", y, 0, 2, 65535])
+        else:
+            for prt in (49152, 49153):
+                x = sc.slot(); hold.append(x)
+                sc.add(["listen", x, 0, 0, prt])
+        ls = sc.slot()
+        sc.add(["listen", ls, 1, 3, 80], ["set_cursor", 0, cur])
+        conns = []
+        for i in range(3):
+            cs, as_ = sc.slot(), sc.slot()
+            sc.add(["connect", cs, 0, 3, 80])
+            sc.clean(3, 2)
+            sc.add(["poll_connect", cs], ["accept", ls, as_], ["write", cs, [i + 1]], E, ["flush"], ["read", as_, 4])
+            conns += [cs, as_]
+        u = sc.slot()
+        sc.add(["udp_bind", u, 0, 0, 0], ["udp_send", u, 4, 3, 6000], E, ["flush"])       # bind :0 and an auto-bound datagram
+        u2 = sc.slot()
+        sc.add(["set_cursor", 0, 65535], ["udp_bind", u2, 0, 2, 0])
+        for h_ in conns + [u, u2] + hold + [ls]:
+            sc.add(["close", h_], E, ["flush"])
+        for _ in range(6):
+            sc.add(E, ["flush"])
+        sc.add(["counts", 0], ["counts", 1], ["rows", 0], ["rows", 1])
+        fin = sc.slot()
+        sc.add(["listen", fin, 1, 3, 80], ["counts", 1])
+        out.append({"cfg": cfg, "script": sc.s, "flavour": "port_wrap",
+                    "plan": {"closed_all": True, "settled": True, "port": 80, "final_listen": fin}})
+    return out
+
+
+def rst_after_lost_data_cases():
+    """Deterministic family (always emitted, C13): the client writes one byte and drops its stream (FIN, FIN_WAIT2); the
+    server's data segment(s) to it are lost on the wire; the server drops its stream with the byte unread, so its RST
+    carries seq = snd_nxt AHEAD of the client's rcv_nxt; the RST is delivered.  The lingering client socket must be
+    torn down by it: afterwards both tables are empty (a delivered RST is not the OrphanLinger class)."""
+    out = []
+    for (v6, nseg, th) in [(False, 1, 3), (True, 2, 3), (False, 1, 2)]:
+        cfg = full_cfg({"backlog": 4, "send_cap": 64, "recv_cap": 64, "v6": v6, "retx_threshold": th, "retx_max": 5})
+        sc = Script()
+        ls, cs, as_ = handshake(sc)
+        sc.add(["write", cs, [7]], ["close", cs], E, ["flush"], E, ["flush"], E, ["flush"])
+        for i in range(nseg):
+            sc.add(["write", as_, [20 + i, 21 + i, 22 + i]], E, ["drop", 0])
+        sc.add(["close", as_], E, ["flush"], ["close", ls])
+        for _ in range(th * 6 + 6):
+            sc.add(E, ["flush"])
+        sc.add(["counts", 0], ["counts", 1], ["rows", 0], ["rows", 1])
+        fin = sc.slot()
+        sc.add(["listen", fin, 1, 3, 80], ["counts", 1])
+        out.append({"cfg": cfg, "script": sc.s, "flavour": "rst_after_lost_data",
                     "plan": {"closed_all": True, "settled": True, "port": 80, "final_listen": fin}})
     return out
 
